@@ -312,6 +312,31 @@ impl Edge {
         Ok(rows)
     }
 
+    ///
+    /// Used during synchronisation: splits the edges between those whose source node is stored in the room
+    /// and those that do not belong to the room (the source id of each of them is returned)
+    ///
+    pub fn filter_by_source_room(
+        room_id: &Uid,
+        edges: Vec<(Self, String)>,
+        conn: &Connection,
+    ) -> Result<(Vec<(Self, String)>, Vec<Uid>)> {
+        let mut valid = Vec::new();
+        let mut invalid = Vec::new();
+        let query = "SELECT 1 FROM _node WHERE id=? AND _entity=? AND room_id=?";
+        let mut stmt = conn.prepare_cached(query)?;
+        for e in edges {
+            let found: Option<i64> = stmt
+                .query_row((&e.0.src, &e.0.src_entity, room_id), |row| row.get(0))
+                .optional()?;
+            match found {
+                Some(_) => valid.push(e),
+                None => invalid.push(e.0.src),
+            }
+        }
+        Ok((valid, invalid))
+    }
+
     pub fn filtered_by_room(
         room_id: &Uid,
         node_ids: Vec<(Uid, i64)>,
